@@ -103,18 +103,35 @@ class GenericEnv(AbstractEnv):
         raise NotImplementedError
 
 
+class _Static:
+    """holder for a static (metadata) field whose value contains arrays: compared by identity and hashed by id, so that jax's comparison of static arguments (which evaluates
+    `==` on metadata when two different objects meet in one process) never compares arrays"""
+    def __init__(self, v):
+        self.v = v
+
+    def __eq__(self, other):
+        return self is other
+
+    def __hash__(self):
+        return id(self)
+
+
 class GenericInnerEnv(GenericEnv):
     """Any environment-LIKE object a wrapper may sit on (possibly itself a wrapper stack): as GenericEnv, but `unwrapped` is a DIFFERENT environment with different spaces
     and its own collaborators (tag 'decoy'), so that code reaching through `self.unwrapped` where `self.env` is meant becomes visible."""
-    decoy: GenericEnv = eqx.field(static=True)
+    _decoy: "_Static" = eqx.field(static=True)
 
-    def __init__(self, action_space=None, tag="env", masked=False, obs_dim=OBS_DIM, observation_space=None):
+    def __init__(self, action_space=None, tag="env", masked=False, obs_dim=OBS_DIM, observation_space=None, decoy=None):
         super().__init__(action_space, tag, masked, obs_dim, observation_space)
-        self.decoy = GenericEnv(Box(-jnp.ones((5,)), jnp.ones((5,))), tag="decoy", observation_space=Box(-jnp.inf, jnp.inf, (7,)))
+        self._decoy = _Static(decoy if decoy is not None else GenericEnv(Box(-jnp.ones((5,)), jnp.ones((5,))), tag="decoy", observation_space=Box(-jnp.inf, jnp.inf, (7,))))
+
+    @property
+    def decoy(self):
+        return self._decoy.v
 
     @property
     def unwrapped(self):
-        return self.decoy
+        return self._decoy.v
 
 
 class GPState(AbstractPolicyState):
